@@ -158,7 +158,11 @@ Proof.
 Qed.
 
 Lemma close_read_resume_wire c s t k d : wire (close_read_resume c s t k d) = wire s.
-Proof. unfold close_read_resume. destruct (q_buf s); [apply wire_close_exc|apply close_read_loop_wire]. Qed.
+Proof.
+  unfold close_read_resume. destruct (q_buf s); [|apply close_read_loop_wire].
+  destruct (c_side c); [apply wire_close_exc|]. destruct (_ && _); [|apply wire_close_exc].
+  rewrite wire_close_ret, wire_close_transport. reflexivity.
+Qed.
 
 Lemma server_close_tail_wire c s t k : wire (server_close_tail c s t k) = wire s.
 Proof. unfold server_close_tail. destruct (closing s).
@@ -211,9 +215,10 @@ Proof.
     + (* close *) destruct (_ && _); cbn [lres_state].
       * apply close_entry_inv. eapply Inv_wire_ext; [|exact H]. reflexivity.
       * eapply Inv_wire_ext; [|exact H]. rewrite wire_finish. reflexivity.
-    + (* closing *) eapply Inv_wire_ext; [|exact H]. rewrite wire_finish. destruct (c_side c); reflexivity.
-  - cbn [lres_state]. apply close_entry_inv. eapply Inv_wire_ext; [|exact H]. reflexivity.
-  - cbn [lres_state]. apply close_entry_inv. eapply Inv_wire_ext; [|exact H]. reflexivity.
+    + (* closing *) eapply Inv_wire_ext; [|exact H]. rewrite wire_finish. destruct (c_side c); [destruct (closed s)|]; reflexivity.
+  - cbn [lres_state]. apply close_entry_inv. eapply Inv_wire_ext; [|exact H].
+    destruct (c_side c); [destruct (closed s)|]; reflexivity.
+  - cbn [lres_state]. apply close_entry_inv. eapply Inv_wire_ext; [|exact H]. destruct (closed s); reflexivity.
   - cbn [lres_state]. eapply Inv_wire_ext; [|exact H]. rewrite wire_finish. destruct (c_side c); reflexivity.
   - cbn [lres_state]. eapply Inv_wire_ext; [|exact H]. rewrite wire_finish. destruct (c_side c); reflexivity.
 Qed.
@@ -264,7 +269,7 @@ Proof.
     pose proof (recv_handle_inv c _ t r H1) as H2.
     destruct (recv_handle c (recv_finally s1) t r); cbn [lres_state] in H2; [assumption|apply recv_loop_inv; assumption].
   - destruct (t_fut _); [|assumption]. destruct (was_cancelled _).
-    + eapply Inv_wire_ext; [|exact H]. rewrite wire_finish. destruct (c_side c); reflexivity.
+    + eapply Inv_wire_ext; [|exact H]. rewrite wire_finish. destruct (c_side c); [apply wire_abnormal|reflexivity].
     + destruct (c_side c); [eapply Inv_wire_ext; [apply server_close_tail_wire|assumption]|apply client_close_body_inv; assumption].
   - destruct (t_fut _) as [fr|]; [|assumption]. destruct (was_cancelled _).
     + destruct (is_timeout _); (eapply Inv_wire_ext; [|exact H]).
